@@ -260,7 +260,12 @@ def real_entry(e, salt=0):
     return {"$ref": f"{f}#{ptr}"}
 
 
+TOP_LEVEL_JUNK = [None, "zzz", {"a": 1}, None]   # None: keep the list form
+
+
 def real_entries(es, salt=0):
+    if es == ["junk"] and TOP_LEVEL_JUNK[salt % 4] is not None:
+        return TOP_LEVEL_JUNK[salt % 4]      # `parameters` itself is not an array: its first element is not an object
     return [real_entry(e, salt + i) for i, e in enumerate(es)]
 
 
@@ -269,7 +274,7 @@ def real_opdef(od):
     if od["id"] is not None:
         d["operationId"] = od["id"]
     if od["params"] or (od["id"] or "x").endswith(("1", "3", "5")):
-        d["parameters"] = real_entries(od["params"], len(od["params"]))
+        d["parameters"] = real_entries(od["params"], len(od["id"] or "") + len(od["params"]))
     if od["body"] is not None:
         b: dict = {}
         if od["body"]["content"] is not None:
